@@ -354,7 +354,9 @@ unsafe fn dispose_general_node<T: RcObject>(
 
     let state = State::from_raw(rc.state.load(Ordering::SeqCst));
     let node_epoch = state.epoch();
-    debug_assert_eq!(state.strong(), 0);
+    // A root was marked as destructed by `try_destruct` with a zero count. A non-root node is
+    // not marked yet, so a concurrent `upgrade` may have incremented its count meanwhile.
+    debug_assert!(depth > 0 || state.strong() == 0);
 
     let curr_epoch = global_epoch();
     let modu: Modular<EPOCH_WIDTH> = Modular::new(curr_epoch as isize + 1);
@@ -364,6 +366,28 @@ unsafe fn dispose_general_node<T: RcObject>(
     // old enough, `modu.le` may return false.
     if depth == 0 || modu.le(node_epoch as _, curr_epoch as isize - 3) {
         // The current node is immediately reclaimable.
+        if depth > 0 {
+            // Unlike a root, which `try_destruct` already marked, a non-root node must be marked
+            // as destructed before its destruction, so that `upgrade`s fail from now on.
+            let mut old = state;
+            loop {
+                if old.strong() > 0 {
+                    // A concurrent `upgrade` revived the node. Give up its destruction by
+                    // consuming the reference count that the `upgrade` granted to us.
+                    RcInner::decrement_strong(rc, 1, Some(guard));
+                    return;
+                }
+                match rc.state.compare_exchange(
+                    old.as_raw(),
+                    old.with_destructed(true).as_raw(),
+                    Ordering::SeqCst,
+                    Ordering::SeqCst,
+                ) {
+                    Ok(_) => break,
+                    Err(curr) => old = State::from_raw(curr),
+                }
+            }
+        }
         rc.data_mut().pop_edges(&mut outgoings);
         unsafe {
             ManuallyDrop::drop(&mut rc.storage);
